@@ -34,6 +34,8 @@ type E5Row struct {
 	Value    string            `json:"value"`     // final: expected constant (Go literal) or list literal
 	Total    int               `json:"total"`     // emits: total number of emissions to the target expected in the function (0 = not checked)
 	Index    int               `json:"index"`     // emits: which of several matching emissions (in source order) this row describes
+	AnySite  bool              `json:"any_site"`  // callguard: the condition under which at least one of the call sites is reached (robust to redundant sites)
+	InLoop   bool              `json:"in_loop"`   // callguard: the condition is taken from the head of the innermost enclosing loop (per iteration), not from the function entry
 }
 
 type E5Each struct {
@@ -216,6 +218,10 @@ func runE5Row(p *Program, sp *Spec, c *Collector, r *E5Row) bool {
 		if len(resultVars(fn)) > 1 || fn.Signature.Results().Len() > 1 {
 			got = project(got, r.Result)
 		}
+		if r.Field != "" {
+			key = e5Key(r, fmt.Sprintf("result%d.%s", r.Result, r.Field))
+			got = symFieldOf(got, r.Field)
+		}
 		return e5Compare(c, r, key, pos, got, want, "", r.What)
 	case "emits":
 		var spec2code map[string]*Sym
@@ -353,6 +359,28 @@ func runE5Row(p *Program, sp *Spec, c *Collector, r *E5Row) bool {
 				key += "." + r.Field
 			}
 		}
+		if r.Kind == "callguard" && r.AnySite && len(sites) > 0 {
+			want, err := parse(r.Expr)
+			if err != nil {
+				c.Anchor(r.Props, "E5: %v", err)
+				return false
+			}
+			got := sBool(false)
+			for _, st := range sites {
+				got = sOr(got, sf.pathCond(st.Block()))
+			}
+			return e5Compare(c, r, key+" any-site", p.InstrPos(sites[0]), got, want, "bool", r.What)
+		}
+		if r.Total > 0 {
+			// several call sites (in source order); the row describes site number Index
+			key += fmt.Sprintf(" site%d", r.Index)
+			if len(sites) != r.Total {
+				c.Ob(r.Props, "E5.decision", key, Violated, fmt.Sprintf("%s: expected %d calls of %s in %s, found %d", r.What, r.Total, shortFn(r.Callee), shortFn(r.Func), len(sites)), pos, false)
+				return false
+			}
+			sort.SliceStable(sites, func(i, j int) bool { return sites[i].Pos() < sites[j].Pos() })
+			sites = []*ssa.Call{sites[r.Index]}
+		}
 		if len(sites) != 1 {
 			c.Ob(r.Props, "E5.decision", key, Violated, fmt.Sprintf("%s: expected exactly one call of %s in %s, found %d", r.What, shortFn(r.Callee), shortFn(r.Func), len(sites)), pos, false)
 			return false
@@ -387,6 +415,20 @@ func runE5Row(p *Program, sp *Spec, c *Collector, r *E5Row) bool {
 		hint := ""
 		if r.Kind == "callguard" {
 			got = sf.pathCond(site.Block())
+			if r.InLoop {
+				var inner *ssa.BasicBlock
+				for h, l := range sf.headers {
+					if l[site.Block()] && (inner == nil || len(l) < len(sf.headers[inner])) {
+						inner = h
+					}
+				}
+				if inner == nil {
+					c.Ob(r.Props, "E5.decision", key, Violated, fmt.Sprintf("%s: the call of %s is not inside a loop", r.What, shortFn(r.Callee)), p.InstrPos(site), false)
+					return false
+				}
+				// from the loop body's first block (the successor of the header inside the loop)
+				got = sf.pathCondFrom(inner, site.Block(), sf.headers[inner])
+			}
 			hint = "bool"
 		} else {
 			if r.Arg >= len(site.Call.Args) {
@@ -545,6 +587,14 @@ func e5Compare(c *Collector, r *E5Row, key, pos string, got, want *Sym, hint, wh
 	if has, w := got.hasUnknown(); has {
 		c.Ob(r.Props, "E5.decision", key, Undecided, fmt.Sprintf("%s: the code leaves the supported fragment (%s); code term: %s", what, w, clip(got.String(), 300)), pos, false)
 		return true
+	}
+	got, want = stripAsserts(got), stripAsserts(want)
+	got, want = canonBinders(got), canonBinders(want) // binders named by nesting depth, so that a call term taken from the code fits the table's binders
+	if w2, err := resolveAnyCalls(want, got); err != nil {
+		c.Ob(r.Props, "E5.decision", key, Violated, fmt.Sprintf("%s: %v; code term: %s", what, err, clip(got.String(), 300)), pos, false)
+		return true
+	} else {
+		want = w2
 	}
 	res := compareSyms(got, want, hint)
 	if res.Equal {
